@@ -376,6 +376,7 @@ func runChunks(c *engine.Ctx) engine.Result {
 	r.Require("listener_recombined_equal:auth", 100)
 	r.Require("listener_recombined_equal:fetch", 100)
 	r.Require("listener_recombined_equal:client-configs", 6)
+	r.Require("listener_recombined_equal:auth-dial", 6)
 	r.Require("listener_recombined_equal:dial-fetch", 5)
 	r.Require("reported_list_recombines_equal:several_entries", 30)
 	r.Require("max_payload_carried_by_real_clienthello", int64(len(prefixes)))
